@@ -431,9 +431,12 @@ def export_prefixed(pref: Prefixed) -> vlsir.Prefixed:
     prefix = export_prefix(pref.prefix)
 
     # And export the numeric part. Use Vlsir's `integer` variant for Decimal values which equal integers, and strings otherwise.
-    if pref.number == int(pref.number) and -(2**63) <= int(pref.number) < 2**63:
-        return vlsir.Prefixed(int64_value=int(pref.number), prefix=prefix)
-    return vlsir.Prefixed(string_value=str(pref.number), prefix=prefix)
+    # (The magnitude is checked first: `int()` of a huge exponent, e.g. 1E+3000000, would not return in reasonable time.)
+    number = pref.number
+    if number.is_finite() and number.adjusted() < 19 and number == number.to_integral_value():
+        if -(2**63) <= int(number) < 2**63:
+            return vlsir.Prefixed(int64_value=int(number), prefix=prefix)
+    return vlsir.Prefixed(string_value=str(number), prefix=prefix)
 
 
 # FIXME: #54 also expose the `hdl21.primitives` as a VLSIR package
